@@ -129,6 +129,28 @@ impl FromSpecImpl<Choice> for bool {
     open spec fn from_spec(c: Choice) -> bool { choice_val(c) }
 }
 impl From<Choice> for bool { #[verifier::external_body] fn from(c: Choice) -> (r: bool) { unimplemented!() } }
+// subtle::Choice combinators (constant-time boolean algebra)
+impl BitOrSpecImpl<Choice> for Choice {
+    open spec fn obeys_bitor_spec() -> bool { false }
+    open spec fn bitor_req(self, rhs: Choice) -> bool { true }
+    open spec fn bitor_spec(self, rhs: Choice) -> Choice { self }
+}
+impl core::ops::BitOr<Choice> for Choice { type Output = Choice;
+    #[verifier::external_body] fn bitor(self, rhs: Choice) -> (r: Choice) ensures choice_val(r) == (choice_val(self) || choice_val(rhs)) { unimplemented!() } }
+impl BitAndSpecImpl<Choice> for Choice {
+    open spec fn obeys_bitand_spec() -> bool { false }
+    open spec fn bitand_req(self, rhs: Choice) -> bool { true }
+    open spec fn bitand_spec(self, rhs: Choice) -> Choice { self }
+}
+impl core::ops::BitAnd<Choice> for Choice { type Output = Choice;
+    #[verifier::external_body] fn bitand(self, rhs: Choice) -> (r: Choice) ensures choice_val(r) == (choice_val(self) && choice_val(rhs)) { unimplemented!() } }
+impl NotSpecImpl for Choice {
+    open spec fn obeys_not_spec() -> bool { false }
+    open spec fn not_req(self) -> bool { true }
+    open spec fn not_spec(self) -> Choice { self }
+}
+impl core::ops::Not for Choice { type Output = Choice;
+    #[verifier::external_body] fn not(self) -> (r: Choice) ensures choice_val(r) == !choice_val(self) { unimplemented!() } }
 
 //@for T,W,BYTES in G1Projective,18,48 | G2Projective,36,96
 #[verifier::external_body]
